@@ -16,6 +16,7 @@ def finish(prop, tier, seed, nshards, results, inconclusive, wall, verif, write_
     mod = importlib.import_module("mpv.props." + prop.lower())
     counters, features, samples, dontcare = {}, set(), [], {}
     failures, fcounts, witnesses = {}, {}, []
+    entered = set()
     evaluations = 0
     for r in results:
         evaluations += r["evaluations"]
@@ -35,6 +36,8 @@ def finish(prop, tier, seed, nshards, results, inconclusive, wall, verif, write_
             if m not in inconclusive:
                 inconclusive.append(m)
         witnesses.extend(r.get("witnesses", []))
+        if r.get("entered") is not None:
+            entered.update(r["entered"])
 
     for name in getattr(mod, "REQUIRED_COUNTERS", []):
         if counters.get(name, 0) == 0:
@@ -86,6 +89,12 @@ def finish(prop, tier, seed, nshards, results, inconclusive, wall, verif, write_
         "shards": nshards,
         "exhaustive": bool(getattr(mod, "EXHAUSTIVE", {}).get(tier, False)),
     }
+    anchors = getattr(mod, "ANCHORS", [])
+    cov["repository_functions_entered"] = len(entered)
+    cov["anchors_reached"] = [a for a in anchors if a in entered]
+    cov["anchors_missed"] = [a for a in anchors if a not in entered]
+    if anchors and not cov["anchors_reached"] and entered:
+        inconclusive.append("none of the anchored mechanisms was entered by the workload: " + ", ".join(anchors[:4]))
     if hasattr(mod, "EXHAUSTIVE_NOTE"):
         cov["exhaustive_subspaces"] = mod.EXHAUSTIVE_NOTE
     ev = {
